@@ -139,11 +139,11 @@ Section TgtRun.
       assert (Hbc : In b canon).
       { apply D_merged in Hb. unfold merged in Hb. apply filter_In in Hb as [Hb _]. exact Hb. }
       pose proof Hchain as [_ Hnd]. rewrite (nodup_ids_eq canon b B Hnd Hbc HBc); [exact EBn | congruence]. }
-    destruct (through_prefix cu forked D (chain_ok_asc D D_ok') Hcons) as (D1 & D2 & ED & Hfst & Hsnd).
+    destruct (through_run_prefix merged forked start cu stopf (j_bundle c) (chain_ok_asc D D_ok') Hcons) as (D1 & D2 & ED & Hfst & Hsnd).
+    fold D in ED.
     exists D1, D2. unfold run_files. rewrite Hmode, Hcur, Hstart. cbn [N.eqb Pos.eqb].
     change (if j_stop c =? 0 then 1000000000000 else j_stop c) with stopf.
-    unfold through_cursor_run. fold D.
-    destruct (resolver_run cu true forked rs_init D) as [fevs r]. cbn [fst snd] in Hfst, Hsnd. subst fevs.
+    destruct (through_cursor_run merged forked start cu stopf (j_bundle c)) as [fevs r]. cbn [fst snd] in Hfst, Hsnd. subst fevs.
     destruct Hsnd as [E|E]; subst r.
     - exists fend0. split; [exact ED|]. split; [reflexivity | left; reflexivity].
     - exists JOther. split; [exact ED|]. split; [reflexivity | right; reflexivity].
